@@ -1810,3 +1810,98 @@ func ruleOffsetAlwaysEmits(rule string, fns []string) func(*Ctx) {
 		}
 	}
 }
+
+// ruleJoinMirror: C01.join.mirror — checkJoinLeft is checkJoinRight seen from the other side: exchanging the
+// neighbour (prevInAEL <-> nextInAEL), the two join marks and the (left, right) order of addLocalMaxPoly's edges,
+// both functions must take the same decisions and have the same effects on every explored path.
+func ruleJoinMirror(rule string) func(*Ctx) {
+	return func(c *Ctx) {
+		jw := c.enumValues("JoinWith")
+		jl, jr := enumByName(jw, "JoinLeft"), enumByName(jw, "JoinRight")
+		sig := func(fn, nb string, mirror bool) []string {
+			f := c.fn(fn)
+			atomFn := func(x string) (absVal, bool) {
+				switch {
+				case strings.HasPrefix(x, "isHotEdge("):
+					return boolVal(true), true
+				case strings.HasPrefix(x, "isHorizontal("), strings.HasPrefix(x, "isOpen("):
+					return boolVal(false), true
+				case x == "(e."+nb+" == nil)":
+					return boolVal(false), true
+				case x == "(e."+nb+" != nil)":
+					return boolVal(true), true
+				}
+				return absVal{}, false
+			}
+			ex := &explorer{c: c, f: f, canon: canonParams(f, "c", "e", "pt", "checkCurrX"), atomFn: atomFn, maxPaths: 4000}
+			outs := ex.explore(nil)
+			if ex.overflow {
+				fatalf("%s: path explosion", fn)
+			}
+			ren := func(s string) string {
+				if mirror {
+					s = strings.ReplaceAll(s, "e.prevInAEL", "e.nextInAEL")
+				}
+				return s
+			}
+			var sigs []string
+			for _, p := range outs {
+				if p.end != "return" {
+					continue
+				}
+				var parts []string
+				for _, cd := range p.conds {
+					parts = append(parts, fmt.Sprintf("%s=%v", ren(cd.expr), cd.taken))
+				}
+				for _, cl := range p.calls {
+					if strings.HasPrefix(cl.callee, "is") || cl.callee == "PerpendicDistFromLineSqr64" {
+						continue
+					}
+					var as []string
+					for _, a := range cl.args {
+						as = append(as, ren(a.expr))
+					}
+					if mirror && strings.HasSuffix(cl.callee, "addLocalMaxPoly") && len(as) == 4 {
+						as[1], as[2] = as[2], as[1]
+					}
+					parts = append(parts, cl.callee+"("+strings.Join(as, ", ")+")")
+				}
+				var sts []string
+				for _, s := range p.stores {
+					v := s.val.v()
+					if mirror && strings.HasSuffix(s.addr, ".joinWith") && s.val.abs.k == aInt {
+						switch s.val.abs.i {
+						case jl:
+							v = fmt.Sprint(jr)
+						case jr:
+							v = fmt.Sprint(jl)
+						}
+					} else if s.val.abs.k == aInt {
+						v = fmt.Sprint(s.val.abs.i)
+					}
+					sts = append(sts, ren(s.addr)+"="+ren(v))
+				}
+				sort.Strings(sts)
+				parts = append(parts, sts...)
+				sigs = append(sigs, strings.Join(parts, " ; "))
+			}
+			sort.Strings(sigs)
+			return sigs
+		}
+		right := sig("(clipperBase).checkJoinRight", "nextInAEL", false)
+		left := sig("(clipperBase).checkJoinLeft", "prevInAEL", true)
+		bad := ""
+		if len(left) != len(right) {
+			bad = fmt.Sprintf("checkJoinLeft has %d explored outcomes, checkJoinRight %d", len(left), len(right))
+		}
+		for i := 0; bad == "" && i < len(left); i++ {
+			if left[i] != right[i] {
+				bad = fmt.Sprintf("outcome %d differs after mirroring: left = [%s] right = [%s]", i+1, left[i], right[i])
+			}
+		}
+		f := c.fn("(clipperBase).checkJoinLeft")
+		c.check(bad == "" && len(right) >= 6, rule, rule+":checkJoinLeft/checkJoinRight", f.Pos(), "(clipperBase).checkJoinLeft",
+			fmt.Sprintf("%d explored outcomes coincide under prev<->next, JoinLeft<->JoinRight", len(right)), bad,
+			"the sweep has no preferred side: a join test that differs between the left and the right neighbour joins (or fails to join) collinear touching edges depending on the input's mirror image")
+	}
+}
